@@ -19,8 +19,13 @@ VepOk ==
       gs == GeneSeq(C.chrom, C.gene)
       inScope == kind \in {"snv", "deletion", "insertion", "substitution"}
   IN
+  (* recorded finding: a single-position multi-base allele (VEP's end-inclusive insertion form) on the    *)
+  (* first base of the gene is written with gene position -1                                              *)
+  /\ Clause("vep_negative_position_multibase",
+       ~(C.outcome = "record" /\ kind = "single_position_multibase" /\ C.rec.start < 0))
   /\ Clause("vep_record_right",
-       C.outcome = "record" => RefOk(gs, C.rec) /\ DenoteSmall(gs, C.rec) = GeneAfter(C.chrom, C.gene, ev))
+       (C.outcome = "record" /\ ~(kind = "single_position_multibase" /\ C.rec.start < 0))
+          => RefOk(gs, C.rec) /\ DenoteSmall(gs, C.rec) = GeneAfter(C.chrom, C.gene, ev))
   /\ Clause("vep_rejection_justified",
        C.outcome \in {"reject_start", "reject_stop"} => TouchesStart(C.tx, ev) \/ BeyondEnd(C.tx, ev))
   /\ Clause("vep_inside_accepted",
